@@ -358,3 +358,35 @@ Proof.
   eapply ar_res_perm_trans; [|apply ar_res_perm_sym; apply ar_fr_load_fast].
   apply (ar_load_fully_order_independent (ar_rule_fast_at genv) inv mid inv' rules rules'); auto.
 Qed.
+
+(* ------------------------------------------------------------------ the order oracle accepts the model *)
+Lemma ar_perm_subset : forall a b, Permutation a b -> ar_subset a b = true.
+Proof.
+  intros a b P. unfold ar_subset. apply forallb_forall. intros x I.
+  apply existsb_exists. exists x. split; [eapply Permutation_in; eauto | apply ar_obj_eqb_refl].
+Qed.
+
+Lemma ar_res_perm_same : forall a b, ar_res_perm a b -> ar_same_res a b = true.
+Proof.
+  intros [a|] [b|]; simpl; auto; try contradiction. intros P. unfold ar_same_set.
+  rewrite (ar_perm_subset a b P), (ar_perm_subset b a (Permutation_sym P)). reflexivity.
+Qed.
+
+(* whatever file order the rules, the hosts and the services of each host are given in, with or without the
+   index, and also when the load is run with threaded frames: the order oracle returns 0 *)
+Theorem ar_order_oracle_accepts_model : forall genv inv mid inv' rules rules',
+  Permutation rules rules' -> Permutation inv mid -> ar_inv_sperm mid inv' ->
+  ar_order_oracle (ar_apply_fast genv inv rules) (ar_apply_fast genv inv' rules') = 0 /\
+  ar_order_oracle (ar_apply genv inv rules) (ar_apply genv inv' rules') = 0 /\
+  ar_order_oracle (ar_apply_fast genv inv rules) (ar_fr_load AFPerRule genv inv' rules') = 0.
+Proof.
+  intros genv inv mid inv' rules rules' Pr Pi S. unfold ar_order_oracle.
+  pose proof (ar_load_fully_order_independent (ar_rule_fast_at genv) inv mid inv' rules rules' Pr Pi S) as F.
+  pose proof (ar_load_fully_order_independent (ar_eval_rule false genv) inv mid inv' rules rules' Pr Pi S) as A.
+  fold (ar_apply_fast genv inv rules) (ar_apply_fast genv inv' rules') in F.
+  fold (ar_apply genv inv rules) (ar_apply genv inv' rules') in A.
+  rewrite (ar_res_perm_same _ _ F), (ar_res_perm_same _ _ A).
+  rewrite (ar_res_perm_same (ar_apply_fast genv inv rules) (ar_fr_load AFPerRule genv inv' rules')).
+  - auto.
+  - eapply ar_res_perm_trans; [exact F|]. apply ar_res_perm_sym. apply ar_fr_load_fast.
+Qed.
